@@ -229,7 +229,22 @@ def median_case(backend, seed):
                          for c, e in (("c", True), ("group", False), ("index", True))]}
 
 
+def tie_case(backend):
+    """two comparisons with an exact-match level on the SAME column and different Bayes factors: the
+    stable sort must keep the first one for the prior adjustment"""
+    case = witness_case("Surname", backend)
+    extra = {"output_column_name": "a_again", "comparison_levels": [
+        {"sql_condition": '"a_l" = "a_r"', "label_for_charts": "exact", "m_probability": 0.6, "u_probability": 0.3},
+        {"sql_condition": "ELSE", "label_for_charts": "else", "m_probability": 0.4, "u_probability": 0.7}]}
+    case["comparisons"].append(extra)
+    case["truth"].append({"name": "a_again", "exact": [["a"], None], "tfcol": None, "cols": ["a"]})
+    case["sessions"][0]["rule"] = 'l."a" = r."a"'
+    return case
+
+
 def witnesses(ctx: Ctx, terms, metas):
+    for backend in ("duckdb", "sqlite"):
+        run_case(ctx, tie_case(backend), terms, metas, "witness:equal-length exact levels on one column")
     for backend in ("duckdb", "sqlite"):
         run_case(ctx, median_case(backend, ctx.seed), terms, metas, "three-session median")
     for col, kind in (("Surname", "uppercase prior"), ("group", "keyword deactivation"), ("index", "keyword deactivation"),
